@@ -69,7 +69,7 @@ def solve_knapsack(
     int_weights = [max(1, int(w * scale)) if w > 0 else 0 for w in weights]
 
     # DP table: dp[w] = max value achievable with capacity w
-    dp = [0.0] * (int_capacity + 1)
+    dp = [0] * (int_capacity + 1)  # int zero: sums of integer values stay exact beyond 2**53
 
     # Track which items were selected
     # keep[i][w] = True if item i was taken at capacity w
